@@ -84,40 +84,46 @@ structure Doc where
   metadata : Option (List (Option Meta))
   encoder : Option String
 
+/-- `rekey[idx]` -/
+def rekey (order : List Nat) (i : Nat) : Except Err Nat :=
+  match indexOf i order 0 with
+  | some k => .ok k
+  | none => .error (.store .keyError)
+
+/-- `_serialize_node(idx, node)` together with the node's metadata entry -/
+def serialNode (c : OpCodec Ω) (s : St Ω) (order : List Nat) (i : Nat) : Except Err (Json × Option Meta) :=
+  match liftS (Store.getNode s i) with
+  | .error e => .error e
+  | .ok d =>
+    match rekey order (d.parent.getD i) with
+    | .error e => .error e
+    | .ok p =>
+      match liftO (c.enc d.op p) with
+      | .error e => .error e
+      | .ok j => .ok (j, if d.md.isEmpty then none else some d.md)
+
+/-- `_serialize_link(link)` -/
+def serialLink (c : OpCodec Ω) (s : St Ω) (order : List Nat) (e : SubPort × SubPort) : Except Err Edge :=
+  match constrainOffset c s e.1.node e.1.offset false with
+  | .error er => .error er
+  | .ok so =>
+    match constrainOffset c s e.2.node e.2.offset true with
+    | .error er => .error er
+    | .ok d_ =>
+      match rekey order e.1.node, rekey order e.2.node with
+      | .ok a, .ok b => .ok ⟨a, some so, b, some d_⟩
+      | .error er, _ => .error er
+      | _, .error er => .error er
+
 /-- `Hugr._to_serial()` -/
 def toSerial (c : OpCodec Ω) (s : St Ω) : Except Err Doc :=
   match liftS (Store.hierarchyOrder s) with
   | .error e => .error e
   | .ok order =>
-    let rekey (i : Nat) : Except Err Nat :=
-      match indexOf i order 0 with
-      | some k => .ok k
-      | none => .error (.store .keyError)
-    let node (i : Nat) : Except Err (Json × Option Meta) :=
-      match liftS (Store.getNode s i) with
-      | .error e => .error e
-      | .ok d =>
-        match rekey (d.parent.getD i) with
-        | .error e => .error e
-        | .ok p =>
-          match liftO (c.enc d.op p) with
-          | .error e => .error e
-          | .ok j => .ok (j, if d.md.isEmpty then none else some d.md)
-    let link (e : SubPort × SubPort) : Except Err Edge :=
-      match constrainOffset c s e.1.node e.1.offset false with
-      | .error er => .error er
-      | .ok so =>
-        match constrainOffset c s e.2.node e.2.offset true with
-        | .error er => .error er
-        | .ok d_ =>
-          match rekey e.1.node, rekey e.2.node with
-          | .ok a, .ok b => .ok ⟨a, some so, b, some d_⟩
-          | .error er, _ => .error er
-          | _, .error er => .error er
-    match order.mapM node with
+    match order.mapM (serialNode c s order) with
     | .error e => .error e
     | .ok ns =>
-      match s.links.fwd.mapM link with
+      match s.links.fwd.mapM (serialLink c s order) with
       | .error e => .error e
       | .ok es => .ok { nodes := ns.map (·.1), edges := es, metadata := some (ns.map (·.2)), encoder := none }
 
